@@ -180,8 +180,9 @@ TRUSTED_BASE = [
     "Src.compile_default and judged by C17; CALLED, not re-translated: _actions, _categorize, match_resource, _is_strict as the total "
     "translations of C03_translated / C05_translated (an item of rules, a rule's resource or env['resource'] that is a truthy non-dict "
     "makes CPython raise AttributeError where they answer: not judged by the comparison) and evaluate / decide as translated for C02_whole; "
-    "PARTIAL: proved on the generated text are the set delegation and the prologue, plus three kernel-evaluated witnesses; the index / seen "
-    "set / sort / bucket part is tied by the differential runs (its generic lemmas are proved in Proofs/CompileTranslated.lean)",
+    "the obligation proves the whole translation equal to the model's compiledDecide (compile_decide_src: dict policy, rules falsy or a list "
+    "of dicts, dict env with a dict-or-falsy resource, compilerDefault := Src.compile_default, policy.size + 2 < fuel) and set documents "
+    "delegated to Src.decide; nothing of compile / decide is hand-modelled any more",
 ]
 
 
